@@ -307,6 +307,15 @@ func TestVerifC03Sched(t *testing.T) {
 			vstats.Case("known-finding case", false, "known:use-after-unmap")
 			return
 		}
+		// Quiescence, first part (before the epilogue, which would write out whatever is pending): all calls have
+		// returned; while a counter file is open nothing may remain in memory.
+		if f.current.Load() != nil && f.err == nil {
+			for k, c := range objs {
+				if e := c.state.load().extra(); e != 0 {
+					t.Fatalf("quiescence: all calls have returned and a counter file is open, but %d of counter %q (object %d) is still unpersisted", e, shortName(names[k.name]), k.obj)
+				}
+			}
+		}
 		// Epilogue: when all threads have returned, one goroutine adds 1 to every counter object, one after the
 		// other. This is part of the program (a longer program of the same kind): whatever state the concurrent
 		// phase left behind - a pointer into a closed mapping that is still marked valid, a lock never released -
